@@ -256,7 +256,9 @@ C12_AtomNames(C, O) ==
     /\ \A k \in CoarseIds(C) : \A n, m \in {x \in FNodes(O) : k \in FragOf(x)} : (n.id # m.id) => n.name # m.name
     /\ (NoSharing(O) => \A k \in CoarseIds(C) :
           LET blk == {x \in FNodes(O) : k \in FragOf(x)} IN
-          {x.name_idx : x \in blk} = 0..(Cardinality(blk) - 1))
+          /\ {x.name_idx : x \in blk} = 0..(Cardinality(blk) - 1)
+          \* a RUNNING index: it counts the atoms of the block in key order
+          /\ \A x \in blk : x.name_idx = Cardinality({y \in blk : y.id < x.id}))
 
 (* ======================================================================= *)
 (* Dedicated configurations: every unit of every base edge has its own     *)
